@@ -5,10 +5,12 @@ package harness
 // real blocks, a multi-step history that random generation is unlikely to hit.
 
 import (
-	"reflect"
 	"fmt"
+	authtypes "github.com/cosmos/cosmos-sdk/x/auth/types"
+	lptypes "github.com/elys-network/elys/x/leveragelp/types"
 	"math/rand"
 	"os"
+	"reflect"
 	"sort"
 	"strings"
 	"testing"
@@ -596,7 +598,6 @@ func init() {
 	}
 }
 
-
 func init() {
 	// C20 (trigger): two limit-sell orders of two owners on one pair; in ONE block a bot executes the first (its trigger is met), the
 	// feeder then moves the price below the second order's rate, and the bot asks for the second: whatever was looked up for the first
@@ -872,5 +873,36 @@ func init() {
 				sc.Empty(5 * time.Second)
 			}
 		}
+	}
+}
+
+func init() {
+	// C07: coins reach the lending vault's account outside deposits and repayments (a swap whose RECIPIENT is the vault's address), in
+	// excess of what is lent out: the figure the interest-rate model takes for "lent out" (stated value minus cash) goes negative. The
+	// rate must stay on its floor: a negative rate makes every later refresh of a debt take value away from the lenders.
+	scenarios["c07-inflow-exceeding-loans"] = func(sc *Scn) {
+		w := sc.w
+		u, whale := w.Accts[4], w.Accts[1]
+		var p PoolRef
+		for _, q := range sc.std.Pools {
+			if q.Perp {
+				p = q
+				break
+			}
+		}
+		sc.Tx("lp.open", u, J{"pool": p.Id, "collateral": "2000000000", "leverage": "3"},
+			&lptypes.MsgOpen{Creator: u.Addr.String(), CollateralAsset: w.usdc(), CollateralAmount: math.NewInt(2_000_000_000), AmmPoolId: p.Id, Leverage: D("3"), StopLossPrice: D("0")})
+		vault := authtypes.NewModuleAddress(sstypes.ModuleName)
+		sc.Tx("amm.swapIn", whale, J{"pool": p.Id, "in": []string{"uatom", "4000000000"}, "hops": 1, "recipient": vault.String()},
+			&ammtypes.MsgSwapExactAmountIn{Sender: whale.Addr.String(), Routes: []ammtypes.SwapAmountInRoute{{PoolId: p.Id, TokenOutDenom: w.usdc()}},
+				TokenIn: sdk.NewCoin("uatom", math.NewInt(4_000_000_000)), TokenOutMinAmount: math.OneInt(), Recipient: vault.String()})
+		for i := 0; i < 24; i++ {
+			sc.Empty(6 * time.Hour)
+		}
+		// the debt is refreshed (a top-up of the position), then a lender looks at the rate
+		sc.Tx("lp.open", u, J{"pool": p.Id, "collateral": "1000000", "leverage": "1"},
+			&lptypes.MsgOpen{Creator: u.Addr.String(), CollateralAsset: w.usdc(), CollateralAmount: math.NewInt(1_000_000), AmmPoolId: p.Id, Leverage: D("1"), StopLossPrice: D("0")})
+		sc.Empty(6 * time.Hour)
+		sc.Empty(6 * time.Hour)
 	}
 }
